@@ -888,7 +888,7 @@ func (ts *Service) handleUpdateTask(w http.ResponseWriter, r *http.Request) {
 			httpd.HttpError(w, fmt.Sprintf("unknown template %s: err: %s", task.TemplateID, err), true, http.StatusBadRequest)
 			return
 		}
-		if original.ID != updated.ID || original.TemplateID != updated.TemplateID {
+		if original.ID != updated.ID || original.TemplateID != templateID {
 			if original.TemplateID != "" {
 				if err := ts.templates.DisassociateTask(original.TemplateID, original.ID); err != nil {
 					httpd.HttpError(w, fmt.Sprintf("failed to disassociate task with template: %s", err), true, http.StatusBadRequest)
